@@ -307,6 +307,9 @@ class Net:
             return
         for st in self.stores:
             if nm in st:
+                if nm in getattr(self, 'hold', ()):
+                    self.held.append(st[nm])        # this answer is slow: delivered when the harness releases it
+                    return
                 self.face.deliver(st[nm])
                 return
 
@@ -674,7 +677,7 @@ SCHEMA_LOOPY = r'''
 #p3: "lab"/"c"/_/#KEY <= #q1 | #q2
 #data: "lab"/"data"/_ <= #p1
 '''
-LOOP_KINDS = ('intact', 'intact-two-at-once', 'two-cycle', 'three-cycle', 'names-itself', 'cycle-behind-intact-prefix')
+LOOP_KINDS = ('intact', 'intact-two-at-once', 'intact-second-while-waiting', 'two-cycle-one-full-name', 'two-cycle', 'three-cycle', 'names-itself', 'cycle-behind-intact-prefix')
 
 
 def loopy_world(kind):
@@ -684,8 +687,8 @@ def loopy_world(kind):
     keyn = {'A': ('/lab/a/a2/KEY/%01', 'ec256_1'), 'B': ('/lab/b/b2/KEY/%01', 'ec256_2'), 'C': ('/lab/a/b2/KEY/%01', 'ec256_3'),
             'D': ('/lab/c/a2/KEY/%01', 'ec256_4')}
     # who signs whose certificate ('R' = the anchor)
-    plan_ = {'intact': {'A': 'C', 'C': 'R'}, 'intact-two-at-once': {'A': 'C', 'C': 'R'},
-             'two-cycle': {'A': 'B', 'B': 'A'}, 'three-cycle': {'A': 'B', 'B': 'D', 'D': 'A'}, 'names-itself': {'A': 'C', 'C': 'C'},
+    plan_ = {'intact': {'A': 'C', 'C': 'R'}, 'intact-two-at-once': {'A': 'C', 'C': 'R'}, 'intact-second-while-waiting': {'A': 'C', 'C': 'R'},
+             'two-cycle': {'A': 'B', 'B': 'A'}, 'two-cycle-one-full-name': {'A': 'B', 'B': 'A'}, 'three-cycle': {'A': 'B', 'B': 'D', 'D': 'A'}, 'names-itself': {'A': 'C', 'C': 'C'},
              'cycle-behind-intact-prefix': {'A': 'C', 'C': 'B', 'B': 'A'}}[kind]
 
     def build(locators):
@@ -695,10 +698,14 @@ def loopy_world(kind):
                 akn = enc.Name.from_str('/lab/KEY/%01')
                 aname, anchor = sv2.self_sign(akn, pub_der('ec256_0'), signer_for('ec256_0', akn))
                 out['R'] = (aname, bytes(anchor))
-                for who in sorted(plan_):
+                for who in sorted(plan_, reverse=kind.endswith('full-name')):
                     by = plan_[who]
                     bykey = 'ec256_0' if by == 'R' else keyn[by][1]
                     loc = aname if by == 'R' else locators.get(by, '/x')
+                    if kind.endswith('full-name') and who == 'A' and by in out:
+                        # A names B by B's full name (B exists already and names A by its plain name)
+                        loc = list(out[by][0]) + [enc.Component.from_bytes(hashlib.sha256(out[by][1]).digest(), enc.Component.TYPE_IMPLICIT_SHA256)]
+                        out['B-full'] = (loc, out[by][1])
                     nm, cert = sv2.derive_cert(enc.Name.from_str(keyn[who][0]), 'iss', pub_der(keyn[who][1]), signer_for(bykey, loc), start, 86400)
                     out[who] = (nm, bytes(cert))
                 pk = [bytes(enc.make_data(f'/lab/data/{i}', enc.MetaInfo(freshness_period=1000), b'x', signer_for(keyn['A'][1], out['A'][0])))
@@ -706,7 +713,7 @@ def loopy_world(kind):
         return out, pk
     first, _ = build({})
     certs, pk = build({k: v[0] for k, v in first.items()})
-    assert all(certs[k][0] == first[k][0] for k in first)
+    assert all(certs[k][0] == first[k][0] for k in first if k != 'B-full')
     return certs, pk
 
 
@@ -723,7 +730,29 @@ def run_loops(kind):
         net.serve(H)
         val = lvs_validator(Checker(compile_lvs(SCHEMA_LOOPY), DEFAULT_USER_FNS), net.app, certs['R'][1])
         want = kind.startswith('intact')
-        if kind == 'intact-two-at-once':
+        if kind == 'intact-second-while-waiting':
+            # the certificate of the issuer is slow; a second packet of the same signer is handed to the validator meanwhile
+            out = {}
+            net.hold = {bytes(enc.Name.to_bytes(certs['C'][0]))}
+            net.held = []
+
+            async def one(i):
+                try:
+                    name, _, _, sig = enc.parse_data(pk[i])
+                    out[i] = await val(name, sig)
+                except BaseException as e:  # noqa
+                    out[i] = f'raises:{type(e).__name__}@{tb_where(e)}'
+            ts_ = [net.loop.create_task(one(0))]
+            net.loop.drain()
+            ts_.append(net.loop.create_task(one(1)))
+            net.loop.drain()
+            net.hold = set()
+            for w_ in net.held:
+                net.face.deliver(w_)
+            net.loop.settle()
+            results = [(out.get(i), ts_[i].done()) for i in (0, 1)]
+            reqs = list(net.requests)
+        elif kind == 'intact-two-at-once':
             out = {}
 
             async def one(i):
